@@ -363,6 +363,13 @@ func TestReplay(t *testing.T) {
 		}
 		c.Case()
 		runRescue(t, c, rc)
+	case "probes":
+		var p probe
+		if err := json.Unmarshal(doc.Data, &p); err != nil {
+			t.Fatalf("bad replay data: %v", err)
+		}
+		c.Case()
+		runProbe(t, c, p)
 	case "errors":
 		var p errProgram
 		if err := json.Unmarshal(doc.Data, &p); err != nil {
